@@ -220,10 +220,22 @@ def check(run):
                     for lhs_, rhs_, op_ in ((c_[1], c_[2], c_[0]), (c_[2], c_[1], q.SWAP[c_[0]])):
                         if q.int_value(rhs_) == 0 and q.strip_casts(lhs_).get('dk') == 'local':
                             eff = op_ if pol else q.NEG[op_]
-                            return eff in ('==', '<=')      # the count gathered so far is zero, however the test is spelled
+                            if eff not in ('==', '<='):      # the count gathered so far is zero, however the test is spelled
+                                return False
+                            # ... and it IS a count of what was gathered in this call: a local that only grows. A cursor
+                            # that is set back (the offset into the current buffer, rewound when a buffer fills) reads
+                            # zero although bytes have been copied
+                            did_ = q.strip_casts(lhs_)['did']
+                            rewound = [s_ for s_, d_ in q.local_defs(fn, did_) if s_['k'] != 'decl']
+                            if rewound:
+                                stale_counts.append((q.strip_casts(lhs_).get('name'), rewound[0]))
+                                return False
+                            return True
                     return False
+                stale_counts = []
                 ok = any(zero_count(a, pol) for a, pol in g)
                 run.check(ok, 'R5', 'eof-after-data', '%s: ec = packet.ec' % fn.norm, fn.loc(n),
+                          ('the "nothing copied yet" test in front of the error report reads `%s`, which is assigned again at line %s (a cursor that is rewound, not a count that only grows): when the data ends exactly on a buffer boundary it reads zero although bytes were copied - the read returns (eof, 0) and the bytes are lost; ' % (stale_counts[0][0], stale_counts[0][1].get('l')) if stale_counts else '') +
                           'the EOF/error of a queued marker is reported although bytes gathered in this call (or still queued ahead of it) have not been delivered: no dominating (count > 0)==false guard',
                           'dominated by the false edge of (<bytes gathered> > 0)')
     if n_eof < 2:
